@@ -13,7 +13,7 @@ def fp_substance(s):
 
 
 def fp_container(c):
-    return ('C', c.name, tuple((s.name, s._type, repr(a)) for s, a in c.contents.items()),
+    return ('C', c.name, tuple((s.name, s._type, s.mol_weight, s.density, repr(a)) for s, a in c.contents.items()),
             repr(c.volume), repr(c.max_volume), c.instructions)
 
 
@@ -81,21 +81,35 @@ class World:
         self.sub_specs = [list(s) for s in sub_specs]
         self.msubs = {}
         self.rsubs = {}
-        for name, kind, mw, rho, act in sub_specs:
+        self.real_name = {}    # model key -> the name the library sees (two keys may share one: "twins", same name,
+        #                        other molar mass / density / kind - distinct substances for the library too)
+        for spec in sub_specs:
+            name, kind, mw, rho, act = spec[:5]
+            rname = spec[5] if len(spec) > 5 and spec[5] else name
+            self.real_name[name] = rname
             if kind == M.SOLID:
                 self.msubs[name] = M.MSub(name, kind, mw, rep.cfg['default_solid_density'])
-                self.rsubs[name] = rep.Substance.solid(name, float(mw))
+                self.rsubs[name] = rep.Substance.solid(rname, float(mw))
             elif kind == M.LIQUID:
                 self.msubs[name] = M.MSub(name, kind, mw, rho)
-                self.rsubs[name] = rep.Substance.liquid(name, float(mw), float(rho))
+                self.rsubs[name] = rep.Substance.liquid(rname, float(mw), float(rho))
             elif kind == M.ENZYME:
                 # act is a string like '10 U/mg'
                 value, num, den = M.parse_concentration(act)
                 assert (num, den) == ('U', 'g'), act
                 self.msubs[name] = M.MSub(name, kind, None, rep.cfg['default_enzyme_density'], value)
-                self.rsubs[name] = rep.Substance.enzyme(name, act)
+                self.rsubs[name] = rep.Substance.enzyme(rname, act)
             else:
                 raise ValueError(kind)
+        self.by_real = {}
+        for k, s in self.rsubs.items():
+            ident = (s.name, s._type, s.mol_weight, s.density)
+            if ident in self.by_real:
+                raise ValueError(f"substances {k} and {self.by_real[ident]} are one substance for the library")
+            self.by_real[ident] = k
+        self.keys_of_name = {}
+        for k, rn in self.real_name.items():
+            self.keys_of_name.setdefault(rn, []).append(k)
         self.model = M.Model(self.msubs, rep.cfg)
         self.sub_fps = {n: fp_substance(s) for n, s in self.rsubs.items()}
         self.reg = {}          # name -> list of real objects (versions)
@@ -150,15 +164,25 @@ class World:
         return bad
 
     # ---- abstraction
+    def key_of(self, s):
+        """model key of a library Substance (identity as the library defines it: name, kind, molar mass, density)"""
+        k = self.by_real.get((s.name, s._type, s.mol_weight, s.density))
+        if k is None:
+            raise KeyError(f"unknown substance {s.name} ({s._type}, {s.mol_weight}, {s.density})")
+        return k
+
+    def key_of_name(self, rname):
+        """model key for a name read in a text; None if no or several substances carry it"""
+        ks = self.keys_of_name.get(rname, ())
+        return ks[0] if len(ks) == 1 else None
+
     def alpha_container(self, c) -> M.MVessel:
         u = self.units
         cap = None if c.max_volume == float('inf') else F(c.max_volume) * u.vol_mult
         v = M.MVessel(c.name, cap)
         for s, a in c.contents.items():
-            ms = self.msubs.get(s.name)
-            if ms is None:
-                raise KeyError(f"unknown substance {s.name} in {c.name}")
-            v.contents[s.name] = F(a) * u.amt_mult(ms)
+            k = self.key_of(s)
+            v.contents[k] = F(a) * u.amt_mult(self.msubs[k])
         return v
 
     def alpha_plate(self, p) -> M.MPlate:
